@@ -166,6 +166,8 @@ def eager_action_rules(ctx: Ctx, rule: str) -> None:
                 for cal in ctx.res.callees(node.func, node.ast):
                     if cal.cls is not None and cal.cls.qualname == C.MESSAGE and cal.name in EAGER:
                         return ("super", cal.name, "awaited" if node.id in aw else "NOT-awaited")
+                    if cal.cls is not None and cal.cls.qualname == C.MSGDEP and cal.name in EAGER:
+                        return ("another eager action", cal.name)  # an eager action answers with the action it is named after, never with a different one
                     if cal.name == "__execute_callbacks":
                         return ("callbacks", "awaited" if node.id in aw else "NOT-awaited")
                 op = C.broker_op(ctx, node)
@@ -531,3 +533,167 @@ def per_instance_state(ctx: Ctx, rule: str, prefixes: tuple[str, ...], why: str)
                       f"{c.name}.{name} is a class-body {unparse(val)} that {sorted({w.short() for w in writers})[:3]} mutate through self: one object shared by every instance - {why}",
                       node=val, instance=f"{c.name}.{name} per instance")
     ctx.floor(rule, n, 3, "classes inspected for shared mutable state")
+
+
+_LOCK_CTORS = ("asyncio.Lock", "asyncio.Semaphore", "asyncio.BoundedSemaphore", "asyncio.Condition", "Lock", "Semaphore", "BoundedSemaphore", "Condition", "threading.Lock", "threading.RLock")
+
+
+def no_lock_across_reentry(ctx: Ctx, rule: str, fn, why: str) -> None:
+    """`fn` awaits user code that may re-enter it (an actor that enqueues). It therefore holds no lock of its object while awaiting: asyncio locks are not re-entrant."""
+    cls = fn.cls
+    lock_attrs = set()
+    if cls is not None:
+        for m in cls.methods.values():
+            for st in ast.walk(m.node):
+                if isinstance(st, (ast.Assign, ast.AnnAssign)) and getattr(st, "value", None) is not None and isinstance(st.value, ast.Call) and (dotted(st.value.func) or "") in _LOCK_CTORS:
+                    for t in (st.targets if isinstance(st, ast.Assign) else [st.target]):
+                        if isinstance(t, ast.Attribute):
+                            lock_attrs.add(t.attr)
+        for name, val in cls.attrs.items():
+            if isinstance(val, ast.Call) and (dotted(val.func) or "") in _LOCK_CTORS:
+                lock_attrs.add(name)
+    held = []
+    for x in ast.walk(fn.node):
+        if isinstance(x, ast.AsyncWith) and any(isinstance(a, ast.Await) for b in x.body for a in ast.walk(b)):
+            for item in x.items:
+                e = item.context_expr
+                if (isinstance(e, ast.Attribute) and e.attr in lock_attrs) or (isinstance(e, ast.Call) and (dotted(e.func) or "") in _LOCK_CTORS):
+                    held.append(e)
+        if isinstance(x, ast.Call) and isinstance(x.func, ast.Attribute) and x.func.attr == "acquire" and isinstance(x.func.value, ast.Attribute) and x.func.value.attr in lock_attrs:
+            held.append(x)
+    ctx.check(not held, rule, fn, f"{fn.short()} holds no lock across its awaits", "re-entrant by construction", f"{fn.short()} awaits while holding {[unparse(h)[:40] for h in held][:2]}: {why}",
+              node=held[0] if held else None, instance=f"{fn.short()}: no lock across awaits")
+
+
+def who_may_call(ctx: Ctx, rule: str, attr: str, allowed, why: str, prefixes: tuple[str, ...] = ("repid.",), floor: int = 0) -> None:
+    """Call sites of `.attr(...)` in the library lie only in functions accepted by `allowed(func)`."""
+    n = 0
+    for q, fn in sorted(ctx.prog.functions.items()):
+        if not q.startswith(prefixes):
+            continue
+        for x in C.own_nodes(fn):
+            if isinstance(x, ast.Call) and isinstance(x.func, ast.Attribute) and x.func.attr == attr:
+                n += 1
+                ctx.check(bool(allowed(fn, x)), rule, fn, f"{attr}() called from {fn.short()}", "an accepted caller", f"{fn.short()} calls {unparse(x)[:60]}: {why}", node=x,
+                          instance=f"{attr} called from {fn.short()}")
+    ctx.floor(rule, n, floor, f"call sites of {attr}()")
+
+
+def bucket_ownership(ctx: Ctx, rule: str) -> None:
+    """Who touches which bucket broker: the producer (Job) stores argument buckets and reads result buckets; the worker (_Processor, MessageDependency) reads argument buckets and stores
+    result buckets; nobody in the library deletes a bucket. A result bucket written or removed from the producer's side races with the execution that fills it."""
+    table = {
+        "repid.job.Job": {("store_bucket", "args"), ("get_bucket", "result")},
+        C.PROCESSOR: {("get_bucket", "args"), ("store_bucket", "result")},
+        C.MSGDEP: {("store_bucket", "result")},
+    }
+    n = 0
+    for q, fn in sorted(ctx.prog.functions.items()):
+        if not q.startswith("repid.") or q.startswith(("repid.connections.", "repid.testing.", "repid.middlewares.")):
+            continue
+        top = fn
+        while getattr(top, "parent", None) is not None:
+            top = top.parent
+        for x in C.own_nodes(fn):
+            if not (isinstance(x, ast.Call) and isinstance(x.func, ast.Attribute) and x.func.attr in ("store_bucket", "get_bucket", "delete_bucket")):
+                continue
+            n += 1
+            recv = x.func.value
+            txt = unparse(recv)
+            if isinstance(recv, ast.Name):
+                for y in ast.walk(top.node):
+                    if isinstance(y, ast.NamedExpr) and isinstance(y.target, ast.Name) and y.target.id == recv.id:
+                        txt = unparse(y.value)
+                    elif isinstance(y, ast.Assign) and any(isinstance(t, ast.Name) and t.id == recv.id for t in y.targets):
+                        txt = unparse(y.value)
+            role = "args" if ("_ab" in txt or "args_bucket" in txt) else "result" if ("_rb" in txt or "results_bucket" in txt or "result_bucket" in txt) else "?" + txt
+            owner = next((k for k in table if q.startswith(k + ".")), None)
+            ok = owner is not None and (x.func.attr, role) in table[owner]
+            ctx.check(ok, rule, fn, f"{fn.short()}: {x.func.attr} on the {role} bucket broker", "an entry of the ownership table",
+                      f"{fn.short()} calls {x.func.attr}() on the {role} bucket broker: outside the ownership table (producer: store args / read results; worker: read args / store results; nobody deletes) - "
+                      "a result bucket touched from the producer's side races with the execution that fills it, an argument bucket touched by the worker changes what later deliveries receive",
+                      node=x, instance=f"{fn.short()}: {x.func.attr}[{role}]")
+    ctx.floor(rule, n, 5, "bucket operations outside the broker packages")
+
+
+def no_shield(ctx: Ctx, rule: str, files: tuple[str, ...], why: str) -> None:
+    """Cancellation is how the runner / worker stops an operation before it hands the message back (cancel + reject, finish()). In the listed files nothing is wrapped in
+    asyncio.shield: a shielded operation keeps running after its awaiter was cancelled and acts on a message that has meanwhile been returned."""
+    hits = [(f, ln, txt) for f, ln, txt in ctx.prog.shielded if f.endswith(files)]
+    anchor = next(iter(ctx.prog.functions.values()))
+    for f, ln, txt in hits:
+        fn = next((x for x in ctx.prog.functions.values() if x.module.relpath == f and x.node.lineno <= ln <= getattr(x.node, "end_lineno", x.node.lineno)), anchor)
+        ctx.check(False, rule, fn, f"asyncio.shield({txt[:40]}) in {f}", "not shielded", f"{f}:{ln} shields {txt}: {why}", instance=f"shield in {fn.short()}")
+    ctx.check(True, rule, anchor.qualname if False else anchor, f"no asyncio.shield in {', '.join(files)}" if not hits else "shield inventory", "cancellation reaches every operation", "", instance=f"no shield: {','.join(files)}") if not hits else None
+
+
+def job_constructs_fresh(ctx: Ctx, rule: str) -> None:
+    """Job builds key and parameters from its CURRENT public attributes on every enqueue: the constructors keep nothing on the job. A job object that is kept, changed (timestamp,
+    ttl, timeout, retries ...) and enqueued again must send what it now says, not what it said the first time."""
+    for name in ("_construct_parameters", "_construct_routing_key"):
+        f = ctx.func(f"repid.job.Job.{name}")
+        stores = [x for x in C.own_nodes(f) if isinstance(x, ast.Attribute) and isinstance(x.ctx, ast.Store) and dotted(x.value) == "self"]
+        stores += [x for x in C.own_nodes(f) if isinstance(x, ast.Call) and (dotted(x.func) or "") in ("setattr", "object.__setattr__") and x.args and dotted(x.args[0]) == "self"]
+        rets = [r.value for r in C.own_returns(f) if r.value is not None]
+        reads_back = [r for r in rets if isinstance(C.inline_locals(f, r) or r, ast.Attribute) and dotted((C.inline_locals(f, r) or r)).startswith("self._")]
+        what = ("stores " + unparse(stores[0])[:40]) if stores else ("returns " + unparse(reads_back[0])[:40]) if reads_back else ""
+        ctx.check(not stores and not reads_back, rule, f, f"Job.{name} keeps nothing on the job", "built anew from the current attributes on every call",
+                  f"Job.{name} {what}: a job that is modified and enqueued again sends the parameters of its first "
+                  "submission (its old timestamp / ttl: a live message is dead-lettered, an expired one is executed)", node=(stores or reads_back)[0] if (stores or reads_back) else None,
+                  instance=f"Job.{name} fresh")
+
+
+# asynchronous operations of the client libraries, by the name of the method (receiver-independent ones only)
+_EXTERNAL_ASYNC = {"sleep", "gather", "wait_for", "wait_closed", "basic_publish", "basic_ack", "basic_nack", "basic_reject", "basic_consume", "basic_cancel", "basic_qos",
+                   "queue_declare", "queue_purge", "queue_delete", "execute", "start_serving", "serve_forever", "acquire"}
+_PROPERTY_FILES: dict[str, tuple[str, ...]] = {}
+
+
+def _anchor_files(prop: str) -> tuple[str, ...]:
+    if not _PROPERTY_FILES:
+        import json
+        import os
+
+        path = os.path.join(os.path.dirname(os.path.dirname(os.path.dirname(os.path.abspath(__file__)))), "properties.jsonl")
+        for line in open(path, encoding="utf-8"):
+            d = json.loads(line)
+            _PROPERTY_FILES[d["id"]] = tuple(d["anchors"]["files"])
+    return _PROPERTY_FILES.get(prop, ())
+
+
+def every_operation_awaited(ctx: Ctx, rule: str, files: tuple[str, ...] | None = None) -> None:
+    """In the files the property is anchored in, no asynchronous operation is created and dropped: a bare statement `x.op(...)` whose callee is a coroutine function (an async def
+    of the library, a call form that is awaited elsewhere in the library, or a known asynchronous method of asyncio / aiormq / redis) builds a coroutine object that nobody runs -
+    the acknowledgement, the re-queue, the back-off sleep, the result store simply do not happen (Python only logs 'coroutine ... was never awaited')."""
+    files = files if files is not None else _anchor_files(ctx.prop)
+    awaited_forms: set[str] = set()
+    for fn in ctx.prog.iter_functions():
+        for x in ast.walk(fn.node):
+            if isinstance(x, ast.Await) and isinstance(x.value, ast.Call):
+                awaited_forms.add(unparse(x.value.func))
+    n = 0
+    for fn in ctx.prog.iter_functions():
+        if fn.module.relpath not in files or isinstance(fn.node, ast.Lambda):
+            continue
+        for st in C.own_nodes(fn):
+            if not (isinstance(st, ast.Expr) and isinstance(st.value, ast.Call)):
+                continue
+            call = st.value
+            form = unparse(call.func)
+            why = None
+            cals = ctx.res.callees(fn, call, record=False)
+            if cals and all(c.is_async for c in cals):
+                why = f"{cals[0].short()} is a coroutine function"
+            elif not cals and form in awaited_forms:
+                why = f"`{form}(...)` is awaited everywhere else in the library"
+            elif not cals and isinstance(call.func, ast.Attribute) and call.func.attr in _EXTERNAL_ASYNC and not (dotted(call.func.value) or "").startswith(("pipe", "pipeline")):
+                why = f"`.{call.func.attr}()` is an asynchronous operation of the client library"
+            elif not cals and isinstance(call.func, ast.Attribute) and (dotted(call.func.value) or "").endswith((".conn", "._channel", "channel", "connection")) and call.func.attr not in ("pipeline",):
+                why = f"`{form}` is a command of the asynchronous client"
+            n += 1
+            if why is None:
+                continue
+            ctx.check(False, rule, fn, f"{fn.short()}: `{unparse(call)[:50]}` is awaited", "no coroutine created and dropped",
+                      f"{fn.short()} calls `{unparse(call)[:70]}` as a bare statement: {why}, so this only creates a coroutine object - the operation never runs", node=st,
+                      instance=f"{fn.short()}: {form} awaited")
+    ctx.check(True, rule, next(iter(ctx.prog.iter_functions())), f"bare call statements in {len(files)} anchored file(s): none drops a coroutine", f"{n} bare call statements inspected", "", instance="operations awaited")
